@@ -671,6 +671,20 @@ pub fn random_request_with(rng: &mut Rng, nspec: usize, tweak: &dyn Fn(&mut Cfg)
             fasta.push((format!("{}{}", cfg.decoy_tag, fasta[i].0), rev));
         }
     }
+    else if cfg.gen_decoys && rng.chance(1, 3) {
+        // decoys are generated internally, yet the FASTA already carries decoy-tagged records (they must be
+        // dropped by the reader) — interleaved with the targets or placed first, not only appended
+        let n = fasta.len();
+        let mut mixed: Vec<(String, String)> = Vec::new();
+        for i in 0..n {
+            if rng.chance(1, 2) {
+                let rev: String = fasta[i].1.chars().rev().collect();
+                mixed.push((format!("{}{}", cfg.decoy_tag, fasta[i].0), rev));
+            }
+            mixed.push(fasta[i].clone());
+        }
+        fasta = mixed;
+    }
     // build the database with the real code, only to choose peptides to plant
     let text = fasta_text(&fasta);
     let builder: Builder = serde_json::from_value(database_json(&cfg, "unused")).ok()?;
@@ -903,6 +917,7 @@ pub fn gen(rng: &mut Rng, tier: Tier, emit: &mut dyn FnMut(Case)) {
                 .tag_if(c.semi, "semi-enzymatic")
                 .tag_if(!c.cterm, "n-terminal-enzyme")
                 .tag_if(!c.gen_decoys, "fasta-decoys")
+                .tag_if(c.gen_decoys && r.fasta.iter().any(|(a, _)| a.starts_with(&c.decoy_tag)), "tagged-records-with-generated-decoys")
                 .tag_if(c.ptol.0 == 1, "precursor-da")
                 .tag_if(c.iso.0 != c.iso.1, "isotope-errors")
                 .tag_if(c.chimera, "chimera")
